@@ -649,7 +649,12 @@ def check_handwritten(prog, res, prop="C08"):
                     off = fconst(v.args[2]) * (1 if v.args[0] == "Add" else -1)
                     facts = [fact_of_guard(gd) for gd in ea.guards(pb) if gd[4] == "switch"]
                     cmpf = [fc for fc in facts if fc[0] in ("Ge", "Gt", "Lt", "Le") and fc[1] is on and is_const(fc[2]) and fconst(fc[2]) == 0]
+                    if len(cmpf) > 1:
+                        # a cascade of tests on the same quotient (`partial_cmp` spelled out: > first, then <, ==): the outermost decides the arm
+                        cmpf = cmpf[-1:]
                     if len(cmpf) != 1:
+                        return None
+                    if cmpf[0][0] in sel and sel[cmpf[0][0]] != off:
                         return None
                     sel[cmpf[0][0]] = off
                 else:
